@@ -447,7 +447,7 @@ fn {h}() {{
 }}
 ", uw = unwind, h = hname, sn = sname, cap = b.depth + 4, arms = arms);
             let rules = format!("[[\"get_key_into\", {}], [\"Transitions|TakeWhile|take_while|::last|fold\", {}], [\"unpack_uint\", 9]]", b.depth + 2, scan + 2);
-            if thorough && (name == "mono_empty0" || name == "mono4") {
+            if name == "mono_empty0" || (thorough && name == "mono4") {
                 // the caller's buffer already holds more bytes than the whole FST
                 let n = b.bytes.len() + 2;
                 let hname2 = format!("c16_longbuf_{}", name);
@@ -468,8 +468,7 @@ fn {h}() {{
     match Fst::new(&{sn}[..]) {{
         Ok(f) => {{
             let mut buf: Vec<u8> = Vec::with_capacity({cap});
-            let mut i = 0;
-            while i < {n} {{ buf.push(pre); i += 1; }}
+            buf.extend_from_slice(&[pre; {n}]);
             let found = f.get_key_into(v, &mut buf);
             let mut hit = false;
 {arms}            if !hit {{ assert!(!found, \"a value no key has is reported as found\"); }}
